@@ -284,7 +284,7 @@ func main() {
 	}
 	sort.SliceStable(order, func(a, b int) bool { return weight(jobs[order[a]]) > weight(jobs[order[b]]) })
 
-	vlib.Parallel(len(jobs), 8, func(k int) {
+	vlib.Parallel(len(jobs), run.N(8, 14), func(k int) {
 		i := order[k]
 		j := jobs[i]
 		sf := fmt.Sprintf("%s/stats%d.json", tmp, i)
